@@ -80,6 +80,18 @@ CHECKS.update({
             "schedule that falsifies the unrestricted statement (known finding). Tie: schedule correspondence; oracle: serial replay of the "
             "successful requests in every permutation on the real service for every executed interleaving.",
             "6 C07", CONC_NOTE, "Coq proof (commit-order serial log invariant by induction over schedules) + refutation witness by vm_compute + schedule correspondence + serial-replay oracle"),
+    'C17': ("proof", "Coq theorems over Model/Fault.v (the SQL statements of _set_allocations with the Python objects' generations, under "
+            "wrap_db_retry inside the caller's transaction): the statement model equals the transaction function used everywhere else; a "
+            "deadlock at any statement up to the first compare-and-swap is retried with exactly the fault-free effect, for every request "
+            "size (after it: refuted - known finding); with a database-side rollback the write is re-run on the committed state (the "
+            "enclosing transaction's earlier work is lost - known finding); retried top-level transactions apply their effect exactly "
+            "once; a non-retryable error in any non-clean-up transaction of any request gives 500 and an unchanged core state. Tie: one "
+            "fault injected at every SQL statement of a corpus covering all write routes (deadlock with/without rollback, duplicate key, "
+            "connection error, start-up sync) on the real service; deadlock positions compared with the model's prediction.",
+            "6 C17", "Trusted: kernel; the database's atomic rollback of a failing top-level transaction; faults are exceptions raised "
+            "from SQLAlchemy hooks; rb emulated by rolling back the DBAPI connection. Three families of known findings are classified by "
+            "fault kind and position (known_findings.json).",
+            "Coq proof by induction over the statement list + fault injection at every statement (fault enumeration) as correspondence"),
     'C18': ("proof", "Coq theorems for every crash point n (number of committed transactions) of every request: referential integrity, forest, "
             "capacity safety relative to the start state, all-or-nothing of providers/inventories/allocations/associations, and the only "
             "residue being allocation-less consumers the request names. Tie: a crash (BaseException) injected before every SQL statement and "
@@ -112,7 +124,6 @@ PENDING = {
     'C11': 'check not built yet',
     'C13': 'check not built yet',
     'C15': 'check not built yet',
-    'C17': 'check not built yet',
 }
 
 
